@@ -410,6 +410,7 @@ def stream_fasta(run: Run, fasta, batch: Batch, n):
             text = term.join(lines) + (term if lines and rng.random() < 0.7 else "")
             key = ("file", text)
             p = SCRATCH / ("t%d.fa" % i)
+            run.last_input = dict(text=text)
             p.write_bytes(text.encode("utf-8"))
             with open(p, "rt", encoding="utf-8") as fh:
                 got = list(fasta.read_fasta(fh))
@@ -473,6 +474,7 @@ def stream_files(run: Run, fasta, batch: Batch, n):
             if not p.name:
                 continue
             p.write_text(text)
+            run.last_input = dict(filename=name, text=text)
             try:
                 alls = list(fasta.Sequence.loadall(str(p), type=explicit))
                 first = fasta.Sequence.load(str(p), type=explicit)
@@ -502,6 +504,23 @@ def stream_files(run: Run, fasta, batch: Batch, n):
                 batch.ask("seq %s %s" % (ty, hx(want_seq)), chk2)
 
 
+def guarded(run, what, fn, *args):
+    """an exception escaping the real code inside a stream is a failure of the property on the
+    last input that stream built (the stream's remaining cases are lost, the other streams run)"""
+    try:
+        fn(*args)
+    except InfraError:
+        raise
+    except Exception as ex:  # noqa
+        import traceback
+        tb = traceback.extract_tb(ex.__traceback__)
+        where = [f for f in tb if "periodictable" in f.filename]
+        run.violation("the real code raised %s during the %s stream" % (type(ex).__name__, what),
+                      dict(stream=what, exception=repr(ex), last_input=getattr(run, "last_input", None),
+                           where=["%s:%d %s" % (f.filename.rsplit("/", 1)[-1], f.lineno, f.name) for f in where[-3:]]),
+                      clause="raises")
+
+
 def run(run: Run) -> int:
     pt = import_repo()
     from periodictable import fasta
@@ -515,11 +534,11 @@ def run(run: Run) -> int:
         batch.send(l)
     quick = run.tier == "quick"
     try:
-        stream_codes(run, fasta, batch)
-        stream_sequences(run, fasta, formula, batch, 1200 if quick else 30000, na)
-        stream_prefix(run, fasta, formula, batch, 300 if quick else 5000)
-        stream_fasta(run, fasta, batch, 1500 if quick else 40000)
-        stream_files(run, fasta, batch, 200 if quick else 3000)
+        guarded(run, "code tables", stream_codes, run, fasta, batch)
+        guarded(run, "sequences", stream_sequences, run, fasta, formula, batch, 1200 if quick else 30000, na)
+        guarded(run, "prefix dispatch", stream_prefix, run, fasta, formula, batch, 300 if quick else 5000)
+        guarded(run, "read_fasta", stream_fasta, run, fasta, batch, 1500 if quick else 40000)
+        guarded(run, "Sequence.load/loadall", stream_files, run, fasta, batch, 200 if quick else 3000)
         batch.run()
     finally:
         shutil.rmtree(SCRATCH, ignore_errors=True)
@@ -530,27 +549,62 @@ def run(run: Run) -> int:
 
 
 def replay(data) -> int:
-    import_repo()
+    """re-run the recorded inputs on the real code, the model (driver) and the oracle"""
+    pt = import_repo()
     from periodictable import fasta
+    na = translate.exact(translate.number_text("periodictable/constants.py", "avogadro_number"))
+    me = translate.exact(translate.number_text("periodictable/constants.py", "electron_mass"))
+    batch = Batch()
+    batch.send("me %s" % f2h(float(me)))
+    for l in pyside.mass_table_lines(pt.elements):
+        batch.send(l)
+    out = []
     for v in data.get("violations", []) + data.get("disagreements", []):
         inp = v["input"]
-        print("what:", v.get("what", v.get("corr")))
+        label = "%s" % v.get("what", v.get("corr"))
         try:
             if "full" in inp:
-                q = fasta.Sequence("x", inp["full"], type=inp["type"])
-                print(" code:", dict(vol=q.cell_volume, charge=q.charge, mass=q.mass, Dmass=q.Dmass, formula=str(q.labile_formula)))
+                s_, ty = inp["full"], inp["type"]
+                label += " | Sequence(%r, type=%r)" % (s_ if len(s_) < 120 else s_[:120] + "…", ty)
+                try:
+                    q = fasta.Sequence("x", s_, type=ty)
+                    code = dict(vol=q.cell_volume, charge=q.charge, mass=q.mass, Dmass=q.Dmass,
+                                density=q.labile_formula.density, formula=str(q.labile_formula))
+                except KeyError as ex:
+                    code = "raised KeyError(%s)" % ex
+                orc = oracle_sequence(fasta, ty, s_, na)
+                label += "\n   code:   %r\n   oracle (sums over the residue entries): %s" % (
+                    code, None if orc is None else {k: float(orc[k]) for k in ("vol", "charge", "mass", "dmass", "density")})
+                batch.ask("seq %s %s" % (ty, hx(s_)), lambda rep, label=label: out.append((label, rep, "seq")))
             elif "lines" in inp:
-                print(" code:", list(fasta.read_fasta(inp["lines"])))
+                label += " | read_fasta(%r)" % (inp["lines"],)
+                label += "\n   code:   %r\n   oracle: %r" % (list(fasta.read_fasta(inp["lines"])),
+                                                              oracle_records([l.rstrip("\n") for l in inp["lines"]]))
+                batch.ask("lines " + " ".join(hx(l) for l in inp["lines"]), lambda rep, label=label: out.append((label, rep, "recs")))
             elif "text" in inp and "filename" not in inp:
-                print(" code:", list(fasta.read_fasta(io.StringIO(inp["text"], newline=None))))
+                label += " | file with text %r" % inp["text"]
+                label += "\n   code:   %r" % list(fasta.read_fasta(io.StringIO(inp["text"], newline=None)))
+                batch.ask("fasta %s" % hx(inp["text"]), lambda rep, label=label: out.append((label, rep, "recs")))
             elif "filename" in inp:
-                print(" code:", fasta._guess_type_from_filename(inp["filename"], inp.get("type")))
+                label += " | _guess_type_from_filename(%r, %r)" % (inp["filename"], inp.get("type"))
+                label += "\n   code:   %r" % fasta._guess_type_from_filename(inp["filename"], inp.get("type"))
+                batch.ask("ftype %s %s" % (hx(inp["filename"]), "none" if inp.get("type") is None else hx(inp["type"])),
+                          lambda rep, label=label: out.append((label, rep, "hex")))
             else:
-                print(" input:", inp)
+                print(label, "| input:", inp)
         except Exception as ex:  # noqa
-            print(" code raised:", type(ex).__name__, ex)
-        if "model" in v:
-            print(" model:", v["model"], " impl:", v.get("impl"))
-        if "expected" in inp:
-            print(" oracle:", inp["expected"])
+            print(label, "\n   replay failed:", type(ex).__name__, ex)
+    batch.run()
+    for label, rep, kind in out:
+        print(label)
+        if kind == "seq" and rep.startswith("ok"):
+            m = parse_mol_reply(rep)
+            print("   model: ", {k: m[k] for k in ("vol", "charge", "mass", "dmass", "density")})
+        elif kind == "recs" and rep.startswith("recs"):
+            w = rep.split()
+            print("   model: ", [(unhx(w[k]), unhx(w[k + 1])) for k in range(1, len(w), 2)])
+        elif kind == "hex":
+            print("   model: ", unhx(rep.split()[0]))
+        else:
+            print("   model: ", rep[:200])
     return 0
